@@ -81,3 +81,21 @@ def eqs_all_true(s, ctx=None):
     if ctx is not None:
         es = [e for e in es if e[3][:len(ctx.fid)] == ctx.fid and int(e[0].split("#")[-1]) > ctx.enter_n]
     return len(es), all(s.entails(Aff.sym(e[0]) - 1) for e in es)
+
+
+def observer_invariant(prog):
+    """type invariant for observe::Observer: the pending message id is materialised (Some payload named) when an observer
+    value is first looked at, so that a test made on a *copy* of the field (`x.message_id.is_some_and(..)`,
+    `x.message_id == Some(id)`) talks about the same number as the field itself"""
+    from absdom import EnumV, StructV, TopV
+
+    def inv(I, st, ty, fts, hint):
+        vals = [TopV(t) for t in fts]
+        a = prog.adts.get("observe::Observer")
+        for i, f in enumerate(a["variants"][0]["fields"]):
+            t = fts[i]
+            if f["name"] == "message_id" and t is not None and t[0] == "adt" and t[1] == "core::option::Option" and t[2] and I.int_ty(t[2][0]) is not None:
+                pv = I.fresh_int(st, hint + ".pending", I.int_ty(t[2][0]))
+                vals[i] = EnumV("core::option::Option", {0: StructV([]), 1: StructV([pv])}, t)
+        return StructV(vals)
+    return inv
